@@ -207,4 +207,48 @@ def collect (w : World) : World :=
   { w with inUse := w.zombies.foldl (fun f c => upd f c (f c - 1)) w.inUse, zombies := [],
            poolAuto := w.zombies.foldl (fun f c => upd f c (w.ac c)) w.poolAuto }
 
+
+/-! ### overlapping calls: several threads inside `doInTransaction` at the same time
+
+`doInTransaction` keeps what it has to put back — the old binding and the level it was read from — in LOCAL
+variables of the call (one `Frame` per running call); entering and leaving are the only moments a call touches the
+hub.  Calls of different threads interleave at the granularity enter / (body) / leave. -/
+
+structure Frame where
+  lvl : Level
+  old : CRef
+  c : Nat
+
+structure HS where
+  hub : Hub
+  /-- the running call of each thread, if any -/
+  frames : Nat → Option Frame
+
+inductive Ev
+  | enter (tid : Nat)
+  | leave (tid : Nat)
+  deriving DecidableEq, Repr
+
+def Ev.tid : Ev → Nat
+  | .enter t | .leave t => t
+
+/-- the prologue of `doInTransaction` (read binding and level, open the transaction, bind it at that level) -/
+def HS.enter (s : HS) (tid : Nat) : HS :=
+  match s.frames tid, s.hub.resolve tid with
+  | none, some (lvl, .base c) =>
+    { hub := s.hub.bind lvl tid (.tx c), frames := upd s.frames tid (some ⟨lvl, .base c, c⟩) }
+  | _, _ => s
+
+/-- the `finally` clause: the call's own saved binding goes back to the call's own saved level -/
+def HS.leave (s : HS) (tid : Nat) : HS :=
+  match s.frames tid with
+  | some f => { hub := s.hub.bind f.lvl tid f.old, frames := upd s.frames tid none }
+  | none => s
+
+def HS.step (s : HS) : Ev → HS
+  | .enter t => s.enter t
+  | .leave t => s.leave t
+
+def HS.run (s : HS) (evs : List Ev) : HS := evs.foldl HS.step s
+
 end SqlObjVerif.Hub
